@@ -12,11 +12,25 @@ C07  Name obfuscation is a consistent, capture-free renaming — property theore
                                  the names the non-local symbols referenced at S resolve to through the ancestors'
                                  (already final) tables — the capture-freedom invariant, by induction over the scope tree
   top_level_unchanged            without obfuscate_globals the global scope gets the empty table
-Not proved here (reported): the resolve-level corollary of remap_tables_capture_free (`resolve_S` one-to-one on the
-names referenced at S; needs the leak-propagation invariant of the prewalk), only_identifiers_change,
-binding_preserved.
+  prewalk_leak_invariant         what `close()` guarantees: in the scope tree the prewalk leaves, every non-local symbol of a
+                                 function scope is a key of its parent's `referenced_symbols` (through catch proxies), at every depth
+  remap_injective_visible        for every program, flags and scope S of the finished tree: `resolve_S` is one-to-one on the keys of
+                                 S's `referenced_symbols` (= by the leak invariant the names referenced in S's subtree that are
+                                 visible-and-declared at S or free at S), the identity on names no scope of the chain declares (free names)
+                                 and on names no scope with a non-empty table declares (top-level names without obfuscate_globals)
+  only_identifiers_change_walk   the chunk stream `_walk` yields with `Obfuscator.resolve` differs from the one with the hook printing
+                                 `node.value` only at the tokens Attr(Resolve()) emits for Identifier nodes (`CRel` / `TokRel`), and such a
+                                 pair of fragments has the same source, the plain one carries no name, the obfuscated one records the
+                                 original as `name` (`identifier_fragment_shape`)
+  kf07a/b/c_*                    negation witnesses, evaluated in the kernel: on the three witness programs `scopeAgree` is false and the
+                                 renaming does NOT preserve the binding structure (`bindingPreserved = some false`)
+Not proved (reported): that the layout pass (`flushAll`) is insensitive to the renamed texts (so `only_identifiers_change` is stated
+for the walk's chunk stream, before layout handlers run), and `binding_preserved` (scopeAgree p → bindingPreserved p): only the
+definitions (Proofs/ObfRename.lean), the negation witnesses and a per-program run-time test of the implication in the check exist.
 -/
-import CalmVerif.Proofs.ObfRemap
+import CalmVerif.Proofs.ObfInjTree
+import CalmVerif.Proofs.ObfOnlyIdent
+import CalmVerif.Proofs.ObfRename
 namespace CalmVerif.Props.C07
 open CalmVerif CalmVerif.Unparse CalmVerif.Obf
 
@@ -105,6 +119,98 @@ theorem top_level_unchanged (cs : List Char) (kw : List String) (id : Nat) (node
     · rename_i rcs _
       simp only [Except.ok.injEq] at h
       exact ⟨rcs, h.symm⟩
+
+
+/-! ### the leak-propagation invariant and the resolve-level capture-freedom -/
+
+/-- **prewalk_leak_invariant**: after the prewalk of any tree, the closed children of every open scope satisfy `LeakOK`
+w.r.t. the keys of that scope's `referenced_symbols` (what `Scope.close()` / the CatchScope proxies guarantee). -/
+theorem prewalk_leak_invariant (sf : Bool) (tree : Val) (st : St) (h : prewalk tablesGen sf tree = .ok st) :
+    StackInv st.stack :=
+  prewalk_stackInv tablesGen sf tree st h
+
+/-- **remap_injective_visible**: for every tree and all flags, every scope of the finished scope tree satisfies `ScopeOK`
+(`InjTree` = `ScopeOK` of every scope with its chain of ancestors): resolve is one-to-one on the names referenced at the scope,
+the identity on free names and on names only scopes with an empty table declare. -/
+theorem remap_injective_visible (fl : Flags) (tree : Val) (fin : Final)
+    (h : prewalkHook tablesGen fl tree = .ok fin) :
+    ∃ st g, prewalk tablesGen fl.shadowFuncname tree = .ok st ∧ st.stack = [g] ∧
+      InjTree [] (closeFrame g) fin.tree := by
+  unfold prewalkHook at h
+  split at h
+  · cases h
+  · rename_i st hst
+    obtain ⟨g, hg, hi⟩ := finalize_injTree charset_ok.1 charset_ok.2 fl st fin
+      (prewalk_stackInv tablesGen fl.shadowFuncname tree st hst) h
+    exact ⟨st, g, hst, hg, hi⟩
+
+/-- what `ScopeOK` says, spelled out for one scope with chain `chain` (itself first) -/
+theorem scopeOK_spelled (chain : List Anc) (h : ScopeOK chain) :
+    (∀ x ∈ ckeys (effRefs chain), ∀ y ∈ ckeys (effRefs chain),
+      resolveChain chain x = resolveChain chain y → x = y) ∧
+    (∀ x ∈ globalSymbols chain, resolveChain chain x = x) ∧
+    (∀ x, (∀ a ∈ chain, a.remapped ≠ [] → x ∉ declaredBy a) → resolveChain chain x = x) := by
+  refine ⟨h.inj, ?_, h.untouched⟩
+  intro x hx
+  apply h.free
+  simp only [globalSymbols, List.mem_filter] at hx
+  simpa using hx.2
+
+/-! ### only identifiers change -/
+
+/-- every rule set that maps Resolve to `Obfuscator.resolve` uses `token_handler_unobfuscate` -/
+theorem obf_rulesets_unobfuscate :
+    Gen.Rules.ruleSets.all (fun rs =>
+      !(deferLookup rs.deferrable .resolve == some .obfResolve) || rs.tokenHandler == .unobfuscate) = true := by
+  decide
+
+/-- **only_identifiers_change_walk**: same printer, same tree; `Obfuscator.resolve` against the hook printing `node.value`. -/
+theorem only_identifiers_change_walk (rs : RuleSet) (indent : Option String) (fin : Final)
+    (h : deferLookup rs.deferrable .resolve = some .obfResolve) (tree : Val) (ca cb : List Chunk) (sa sb : Unit)
+    (ha : walkChunks (mkCfg tablesGen rs indent (obfResolveHook fin)) tree () = .ok (ca, sa))
+    (hb : walkChunks (mkCfg tablesGen rs indent plainResolveHook) tree () = .ok (cb, sb)) :
+    CRel (mkCfg tablesGen rs indent (obfResolveHook fin)) ca cb :=
+  obf_walk_rel tablesGen rs indent fin h tree ca cb sa sb ha hb
+
+/-- **identifier_fragment_shape**: the two fragments of a differing pair: same source, the plain one has no `name` and prints
+the original, the obfuscated one is equal to it or records the original as `name` (and, for a non-empty original, has the
+same position — it is looked up under the original name). -/
+theorem identifier_fragment_shape (rs : RuleSet) (hrs : rs ∈ Gen.Rules.ruleSets) (indent : Option String) (fin : Final)
+    (h : deferLookup rs.deferrable .resolve = some .obfResolve) (ca cb : List Chunk)
+    (ht : TokRel (mkCfg tablesGen rs indent (obfResolveHook fin)) ca cb) :
+    ∃ fa fb, ca = [.frag fa] ∧ cb = [.frag fb] ∧ fb.name = none ∧ fa.source = fb.source ∧
+      (fa = fb ∨ (fa.name = some fb.text ∧ fa.text ≠ fb.text ∧
+        (fb.text ≠ "" → fa.line = fb.line ∧ fa.col = fb.col))) := by
+  have hall := obf_rulesets_unobfuscate
+  simp only [List.all_eq_true] at hall
+  have hr := hall rs hrs
+  simp only [h, beq_self_eq_true, Bool.not_true, Bool.false_or, beq_iff_eq] at hr
+  exact tokRel_unobfuscate _ (by simp [mkCfg, hr]) ca cb ht
+
+/-! ### negation witnesses of the known findings (evaluated in the kernel) -/
+
+/-- `function f(){try{}catch(e){var e=1}return e}` -/
+def kfA : Val := (.node "ES5Program" [("children", (.list [(.node "FuncDecl" [("elements", (.list [(.node "Try" [("catch", (.node "Catch" [("elements", (.node "Block" [("children", (.list [(.node "VarStatement" [("children", (.list [(.node "VarDecl" [("identifier", (.node "Identifier" [("value", (.str "e"))])), ("initializer", (.node "Number" [("value", (.str "1"))]))])]))])]))])), ("identifier", (.node "Identifier" [("value", (.str "e"))]))])), ("fin", .none), ("statements", (.node "Block" [("children", (.list []))]))]), (.node "Return" [("expr", (.node "Identifier" [("value", (.str "e"))]))])])), ("identifier", (.node "Identifier" [("value", (.str "f"))])), ("parameters", (.list []))])]))])
+/-- `function outer(){ var f = function g(){return g}; return g; }` -/
+def kfB : Val := (.node "ES5Program" [("children", (.list [(.node "FuncDecl" [("elements", (.list [(.node "VarStatement" [("children", (.list [(.node "VarDecl" [("identifier", (.node "Identifier" [("value", (.str "f"))])), ("initializer", (.node "FuncExpr" [("elements", (.list [(.node "Return" [("expr", (.node "Identifier" [("value", (.str "g"))]))])])), ("identifier", (.node "Identifier" [("value", (.str "g"))])), ("parameters", (.list []))]))])]))]), (.node "Return" [("expr", (.node "Identifier" [("value", (.str "g"))]))])])), ("identifier", (.node "Identifier" [("value", (.str "outer"))])), ("parameters", (.list []))])]))])
+/-- `function f(){x: try{throw 1}catch(x){break x}}` -/
+def kfC : Val := (.node "ES5Program" [("children", (.list [(.node "FuncDecl" [("elements", (.list [(.node "Label" [("identifier", (.node "Identifier" [("value", (.str "x"))])), ("statement", (.node "Try" [("catch", (.node "Catch" [("elements", (.node "Block" [("children", (.list [(.node "Break" [("identifier", (.node "Identifier" [("value", (.str "x"))]))])]))])), ("identifier", (.node "Identifier" [("value", (.str "x"))]))])), ("fin", .none), ("statements", (.node "Block" [("children", (.list [(.node "Throw" [("expr", (.node "Number" [("value", (.str "1"))]))])]))]))]))])])), ("identifier", (.node "Identifier" [("value", (.str "f"))])), ("parameters", (.list []))])]))])
+/-- `function f(a){var b=a;return function(c){return a+b+c}}` -/
+def okP : Val := (.node "ES5Program" [("children", (.list [(.node "FuncDecl" [("elements", (.list [(.node "VarStatement" [("children", (.list [(.node "VarDecl" [("identifier", (.node "Identifier" [("value", (.str "b"))])), ("initializer", (.node "Identifier" [("value", (.str "a"))]))])]))]), (.node "Return" [("expr", (.node "FuncExpr" [("elements", (.list [(.node "Return" [("expr", (.node "BinOp" [("left", (.node "BinOp" [("left", (.node "Identifier" [("value", (.str "a"))])), ("op", (.str "+")), ("right", (.node "Identifier" [("value", (.str "b"))]))])), ("op", (.str "+")), ("right", (.node "Identifier" [("value", (.str "c"))]))]))])])), ("identifier", .none), ("parameters", (.list [(.node "Identifier" [("value", (.str "c"))])]))]))])])), ("identifier", (.node "Identifier" [("value", (.str "f"))])), ("parameters", (.list [(.node "Identifier" [("value", (.str "a"))])]))])]))])
+
+/-- KF-07a: `var e = 1` inside `catch (e)` -/
+theorem kf07a_scopeAgree_fails : scopeAgreeOf (minifyFlags false false) kfA = some false := by decide +kernel
+theorem kf07a_binding_not_preserved : bindingPreserved (minifyFlags false false) kfA = some false := by decide +kernel
+/-- KF-07b: the own name of a function expression referenced outside of it -/
+theorem kf07b_scopeAgree_fails : scopeAgreeOf (minifyFlags false false) kfB = some false := by decide +kernel
+theorem kf07b_binding_not_preserved : bindingPreserved (minifyFlags false false) kfB = some false := by decide +kernel
+/-- KF-07c: a label spelled like the catch parameter, used inside the catch block -/
+theorem kf07c_scopeAgree_fails : scopeAgreeOf (minifyFlags false false) kfC = some false := by decide +kernel
+theorem kf07c_binding_not_preserved : bindingPreserved (minifyFlags false false) kfC = some false := by decide +kernel
+/-- a closure-heavy program on which the scope trees agree and the binding structure is preserved -/
+theorem ok_program_preserved : scopeAgreeOf (minifyFlags false false) okP = some true ∧
+    bindingPreserved (minifyFlags false false) okP = some true ∧
+    bindingPreserved (minifyFlags true true) okP = some true := by decide +kernel
 
 /-! ### the hypotheses are satisfiable -/
 
